@@ -45,7 +45,17 @@ func build(c cfg, opts model.Options) *rux.Router {
 	})
 	model.Register(r, c.tb.Routes, func(d model.RouteDef) rux.HandlerFunc {
 		name := d.Name()
-		return func(c *rux.Context) { c.WriteString(name) }
+		return func(c *rux.Context) {
+			// an internal redirect: the handler points the request somewhere else and hands its context back to the
+			// router; that second resolution is a resolution like any other
+			if m, p := c.Req.Header.Get("X-Redirect-Method"), c.Req.Header.Get("X-Redirect-Path"); m != "" {
+				c.Req.Header.Del("X-Redirect-Method")
+				c.Req.Method, c.Req.URL = m, &url.URL{Path: p}
+				r.HandleContext(c)
+				return
+			}
+			c.WriteString(name)
+		}
 	})
 	if c.customNF {
 		r.NotFound(func(c *rux.Context) { c.SetStatus(404); c.WriteString("NF") })
@@ -306,6 +316,23 @@ func prop(t *rapid.T) {
 					method, path, rec.Code, rec.Body.String(), rec.Header().Get("Allow"), m2, p2, plain.Code, plain.Body.String(), plain.Header().Get("Allow"), c)
 			}
 			ev.Class("probe:with-another-resolution-in-the-middle:" + res.Kind.String() + "/" + c.tb.Resolve(m2, p2).Kind.String())
+		}
+		if res.Route >= 0 && rapid.IntRange(0, 2).Draw(t, "redirect") == 0 {
+			// the route's handler redirects internally (it rewrites the request and calls HandleContext with its own
+			// context): the answer is the one a request for the new target gets
+			p2, _, _, _, _ := model.GenProbePath(t, c.tb.Routes)
+			m2 := rapid.SampledFrom(append(append([]string{}, model.Methods...), "PURGE")).Draw(t, "redirectMethod")
+			if model.Stable(p2, o.Strict) {
+				plain := serve(r, m2, p2)
+				rec := httptest.NewRecorder()
+				r.ServeHTTP(rec, &http.Request{Method: method, URL: &url.URL{Path: path}, Header: http.Header{"X-Redirect-Method": {m2}, "X-Redirect-Path": {p2}}, Proto: "HTTP/1.1"})
+				ev.Eval()
+				if rec.Code != plain.Code || rec.Body.String() != plain.Body.String() || rec.Result().Header.Get("Allow") != plain.Result().Header.Get("Allow") {
+					t.Fatalf("%s %q, whose handler redirects internally (HandleContext) to %s %q, answers %d %q Allow=%q; a request for %s %q answers %d %q Allow=%q\n config: %s",
+						method, path, m2, p2, rec.Code, rec.Body.String(), rec.Result().Header.Get("Allow"), m2, p2, plain.Code, plain.Body.String(), plain.Result().Header.Get("Allow"), c)
+				}
+				ev.Class("probe:internal-redirect-from-a-route-handler-to:" + c.tb.Resolve(m2, p2).Kind.String())
+			}
 		}
 	}
 }
